@@ -44,14 +44,60 @@ def _is_name(e, name):
     return isinstance(e, ast.Name) and e.id == name
 
 
+_SINGLETONS = (None, True, False)
+
+
 def _flag_test(e, F):
-    """Truth of `e` as a function of the truth of the flag: True for `F`, False for `not F`, None otherwise."""
+    """The test `e` as a predicate on the flag: ("truth", pol) for `F` / `not F`, ("is", K, pol) for `F is K` / `F is not K` with K one of None, True,
+    False, ("eq", K, pol) for `F == K` / `F != K` with a constant K; None when `e` is not such a test."""
     if _is_name(e, F):
-        return True
+        return ("truth", True)
     if isinstance(e, ast.UnaryOp) and isinstance(e.op, ast.Not):
         t = _flag_test(e.operand, F)
-        return None if t is None else not t
+        return None if t is None else t[:-1] + (not t[-1],)
+    if isinstance(e, ast.Compare) and len(e.ops) == 1:
+        a, op, b = e.left, e.ops[0], e.comparators[0]
+        if _is_name(b, F) and isinstance(a, ast.Constant):
+            a, b = b, a
+        if _is_name(a, F) and isinstance(b, ast.Constant):
+            K = b.value
+            if isinstance(op, (ast.Is, ast.IsNot)) and any(K is x for x in _SINGLETONS):
+                return ("is", K, isinstance(op, ast.Is))
+            if isinstance(op, (ast.Eq, ast.NotEq)) and (K is None or isinstance(K, (bool, int, str))):
+                return ("eq", K, isinstance(op, ast.Eq))
     return None
+
+
+def _ev(pred, k):
+    """Outcome of the predicate under the knowledge `k` about the flag: ("val", c) its value, ("truth", b) its truth only, None nothing."""
+    if k is None:
+        return None
+    pol = pred[-1]
+    if pred[0] == "truth":
+        return (bool(k[1]) if k[0] == "val" else k[1]) == pol
+    K = pred[1]
+    if k[0] == "val":
+        hit = (k[1] is K) if pred[0] == "is" else (k[1] == K and not (isinstance(k[1], float)))
+        return hit == pol
+    # only the truth is known: a value of the other truth cannot be (equal to) K
+    if bool(K) != k[1]:
+        return not pol
+    return None
+
+
+def _refine(pred, k, outcome):
+    """Knowledge after the predicate has been evaluated with that outcome."""
+    if k is not None and k[0] == "val":
+        return k
+    if pred[0] == "truth":
+        return ("truth", outcome == pred[-1])
+    if pred[0] == "is" and outcome == pred[-1]:
+        return ("val", pred[1])
+    return k
+
+
+def _const_knowledge(e):
+    return ("val", e.value) if isinstance(e, ast.Constant) and (e.value is None or isinstance(e.value, (bool, int, str))) else None
 
 
 def _stores(node, F):
@@ -88,12 +134,14 @@ def _simple_assign(s, F):
 
 
 def _reads_are_tests(fn, F) -> bool:
-    """Every load of F is in a truth-test position; every store is `F = e`."""
+    """Every load of F is in a test of the flag (`F`, `not F`, `F is K`, `F == K` and their negations) in a condition; every store is `F = e`."""
     ok_loads = set()
 
     def mark(e):
-        if _is_name(e, F):
-            ok_loads.add(id(e))
+        if _flag_test(e, F) is not None:
+            for n in ast.walk(e):
+                if _is_name(n, F):
+                    ok_loads.add(id(n))
         elif isinstance(e, ast.UnaryOp) and isinstance(e.op, ast.Not):
             mark(e.operand)
         elif isinstance(e, ast.BoolOp):
@@ -146,10 +194,11 @@ def _quiet_expr(e) -> bool:
 
 
 def _split_test(test, F):
-    """(continue value of the flag, remaining test or None) for `F`, `not F`, `F and C..`, `C and F`; None when the test is of another form."""
+    """(predicate on the flag that lets the loop run, its expression, remaining test or None) for `T(F)`, `T(F) and C..`, `C and T(F)`; None when the
+    test is of another form."""
     t = _flag_test(test, F)
     if t is not None:
-        return t, None
+        return t, test, None
     if isinstance(test, ast.BoolOp) and isinstance(test.op, ast.And):
         pos = [i for i, v in enumerate(test.values) if _flag_test(v, F) is not None]
         if len(pos) != 1 or any(_mentions(v, F) for i, v in enumerate(test.values) if i != pos[0]):
@@ -159,23 +208,25 @@ def _split_test(test, F):
             return None
         rest = [v for j, v in enumerate(test.values) if j != i]
         rem = rest[0] if len(rest) == 1 else ast.copy_location(ast.BoolOp(op=ast.And(), values=rest), test)
-        return _flag_test(test.values[i], F), rem
+        return _flag_test(test.values[i], F), test.values[i], rem
     return None
 
 
 class _Threader:
-    def __init__(self, F, cv, loop, exit_tail=None):
-        self.F, self.cv, self.loop = F, cv, loop
-        self.exit_tail = exit_tail  # callable(v) -> statements that replace a synthesised break, or None
+    def __init__(self, F, pred, test_expr, loop, exit_tail=None):
+        self.F, self.pred, self.test_expr, self.loop = F, pred, test_expr, loop
+        self.exit_tail = exit_tail  # callable(knowledge, at) -> statements that replace a synthesised break, or None
         self.synth = 0
-        self.raise_points: list = []  # per enclosing try body: the flag values at its statements that may raise
+        self.raise_points: list = []  # per enclosing try body: what is known of the flag at its statements that may raise
         self._scan_jumps: list = [set()]
         self.scoped = 0  # depth of try / with statements around the current position
 
     def _flag_stops(self, at):
-        """Test expression `flag has the stopping value`."""
-        nm = ast.copy_location(ast.Name(id=self.F, ctx=ast.Load()), at)
-        return ast.copy_location(ast.UnaryOp(op=ast.Not(), operand=nm), at) if self.cv else nm
+        """Test expression `the flag does not let the loop run`: the negation of the flag's part of the loop test."""
+        e = self.test_expr
+        if isinstance(e, ast.UnaryOp) and isinstance(e.op, ast.Not):
+            return copy.deepcopy(e.operand)
+        return ast.copy_location(ast.UnaryOp(op=ast.Not(), operand=copy.deepcopy(e)), at)
 
     def _leave(self, at, v):
         self.synth += 1
@@ -186,11 +237,12 @@ class _Threader:
         return [ast.copy_location(ast.Break(), at)]
 
     def end(self, v, at, cont=False):
-        """Statements at an iteration end (fall-through, or an explicit continue when `cont`) where the truth of the flag is `v`."""
+        """Statements at an iteration end (fall-through, or an explicit continue when `cont`) where `v` is known of the flag."""
         tail = [ast.copy_location(ast.Continue(), at)] if cont else []
-        if v is not None:
-            return tail if v == self.cv else self._leave(at, v)
-        return [ast.copy_location(ast.If(test=self._flag_stops(at), body=self._leave(at, not self.cv), orelse=[]), at)] + tail
+        r = _ev(self.pred, v)
+        if r is not None:
+            return tail if r else self._leave(at, v)
+        return [ast.copy_location(ast.If(test=self._flag_stops(at), body=self._leave(at, _refine(self.pred, v, False)), orelse=[]), at)] + tail
 
     def _scan(self, stmts, vs: set) -> set:
         """Possible flag values (True / False / None for unknown) after `stmts` entered with the values `vs`; records the values at the statements
@@ -199,8 +251,8 @@ class _Threader:
             if not vs:
                 return vs
             if _simple_assign(s, self.F):
-                if isinstance(s.value, ast.Constant) and isinstance(s.value.value, bool):
-                    vs = {bool(s.value.value)}
+                if _const_knowledge(s.value) is not None:
+                    vs = {_const_knowledge(s.value)}
                     continue
                 for seen in self.raise_points:
                     seen.update(vs)
@@ -254,7 +306,7 @@ class _Threader:
                     seen.add(v)
             if _simple_assign(s, self.F):
                 out.append(s)
-                v = bool(s.value.value) if isinstance(s.value, ast.Constant) and isinstance(s.value.value, bool) else None
+                v = _const_knowledge(s.value)
                 continue
             if isinstance(s, ast.Continue):
                 return out + self.end(v, s, cont=True), "dead"
@@ -264,16 +316,17 @@ class _Threader:
                 t = _flag_test(s.test, self.F)
                 vb = vo = v
                 if t is not None:
-                    if v is not None:
+                    r = _ev(t, v)
+                    if r is not None:
                         # the test is decided: splice the branch taken
-                        branch = s.body if (v == t) else s.orelse
+                        branch = s.body if r else s.orelse
                         res, v2 = self.seq(branch, v, is_last, s)
                         out += res
                         if v2 == "dead":
                             return out, "dead"
                         v = v2
                         continue
-                    vb, vo = t, not t
+                    vb, vo = _refine(t, v, True), _refine(t, v, False)
                 if not _stores(s, self.F) and not _own_jumps([s], (ast.Continue,)) and t is None:
                     out.append(s)
                     continue
@@ -295,15 +348,21 @@ class _Threader:
                 if not touched and not is_last:
                     out.append(s)
                     continue
-                if s.orelse or s.finalbody:
+                if s.finalbody:
                     if touched:
-                        raise _Abort("try with else / finally touches the flag")
+                        raise _Abort("try with finally touches the flag")
                     out.append(s)
                     continue
                 self.scoped += 1
                 self.raise_points.append(set())
-                b, v1 = self.seq(s.body, v, is_last, s)
+                b, v1 = self.seq(s.body, v, is_last and not s.orelse, s)
                 seen = self.raise_points.pop()
+                # the else clause continues the body when nothing was raised; the handlers do not cover it
+                oe = []
+                if s.orelse and v1 != "dead":
+                    oe, v1 = self.seq(s.orelse, v1, is_last, s)
+                elif s.orelse:
+                    oe = list(s.orelse)
                 self.scoped -= 1
                 # a handler is entered from a statement of the body that can raise: with the flag value current there
                 vh = next(iter(seen)) if len(seen) == 1 else None
@@ -314,7 +373,7 @@ class _Threader:
                     self.scoped -= 1
                     hs.append(ast.copy_location(ast.ExceptHandler(type=h.type, name=h.name, body=hb or [ast.copy_location(ast.Pass(), h)]), h))
                     vs.append(v2)
-                new = ast.copy_location(ast.Try(body=b or [ast.copy_location(ast.Pass(), s)], handlers=hs, orelse=[], finalbody=[]), s)
+                new = ast.copy_location(ast.Try(body=b or [ast.copy_location(ast.Pass(), s)], handlers=hs, orelse=oe, finalbody=[]), s)
                 out.append(new)
                 if is_last:
                     return out, "dead"
@@ -367,7 +426,10 @@ def _decide_tail(stmts, F, v):
         if isinstance(s, ast.If):
             t = _flag_test(s.test, F)
             if t is not None:
-                out += _decide_tail(s.body if v == t else s.orelse, F, v)
+                r = _ev(t, v)
+                if r is None:
+                    raise _Abort("a flag test after the loop is not decided by what is known at this exit")
+                out += _decide_tail(s.body if r else s.orelse, F, v)
                 if out and isinstance(out[-1], (ast.Return, ast.Raise)):
                     return out
                 continue
@@ -387,29 +449,126 @@ def _decide_tail(stmts, F, v):
     return out
 
 
+def _hoist_invariant_conjunct(fn, block, i) -> bool:
+    """`while P and C: B` with P a local that B does not write is `if P: while C: B` (P is tested once: nothing in the loop can change it).  Conjuncts
+    standing before P must be quiet, since the rewritten form tests P first."""
+    loop = block[i]
+    t = loop.test
+    if not (isinstance(t, ast.BoolOp) and isinstance(t.op, ast.And)) or loop.orelse:
+        return False
+    for k, e in enumerate(t.values):
+        n = e.operand if isinstance(e, ast.UnaryOp) and isinstance(e.op, ast.Not) else e
+        if not isinstance(n, ast.Name):
+            continue
+        P = n.id
+        if _stores(ast.Module(body=loop.body, type_ignores=[]), P) or any(_mentions(v, P) for j, v in enumerate(t.values) if j != k):
+            continue
+        if any(not _quiet_expr(v) for v in t.values[:k]):
+            continue
+        # a plain local or parameter: no global / nonlocal declaration, not touched by nested functions, lambdas or comprehensions
+        bad = False
+        for x in ast.walk(fn):
+            if isinstance(x, (ast.Global, ast.Nonlocal)) and P in x.names:
+                bad = True
+            if x is not fn and isinstance(x, (ast.FunctionDef, ast.AsyncFunctionDef, ast.Lambda, ast.ClassDef, ast.ListComp, ast.SetComp, ast.DictComp, ast.GeneratorExp)) and _mentions(x, P):
+                bad = True
+            if isinstance(x, ast.NamedExpr) and _is_name(x.target, P):
+                bad = True
+        if bad or not any(isinstance(x, ast.Name) and x.id == P and isinstance(x.ctx, (ast.Store, ast.Param)) for x in ast.walk(fn)) and P not in [a.arg for a in fn.args.args + fn.args.kwonlyargs + fn.args.posonlyargs]:
+            continue
+        rest = [v for j, v in enumerate(t.values) if j != k]
+        inner = ast.copy_location(ast.While(test=rest[0] if len(rest) == 1 else ast.copy_location(ast.BoolOp(op=ast.And(), values=rest), t), body=loop.body, orelse=[]), loop)
+        block[i] = ast.copy_location(ast.If(test=e, body=[inner], orelse=[]), loop)
+        return True
+    return False
+
+
+def _canon_cmp(e, sigma):
+    """Canonical text of a quiet comparison with the names of `sigma` replaced by their constants and > / >= turned round."""
+    class Sub(ast.NodeTransformer):
+        def visit_Name(self, n):
+            return ast.Constant(value=sigma[n.id]) if n.id in sigma and isinstance(n.ctx, ast.Load) else n
+
+    e = Sub().visit(copy.deepcopy(e))
+    if isinstance(e, ast.Compare) and len(e.ops) == 1:
+        a, op, b = e.left, e.ops[0], e.comparators[0]
+        if isinstance(op, (ast.Gt, ast.GtE)):
+            a, b, op = b, a, (ast.Lt() if isinstance(op, ast.Gt) else ast.LtE())
+        return ast.dump(ast.Compare(left=a, ops=[op], comparators=[b]))
+    return ast.dump(e)
+
+
+def _flag_holds_test(fn, block, i) -> bool:
+    """`F = C0; while F: B; F = C` where C0 is C in the state before the loop: the flag only carries the loop test from the end of one iteration to the
+    head of the next - `while C: B`.  F is read nowhere else, B has no `continue` (which would skip the update) and C is quiet."""
+    loop = block[i]
+    if not isinstance(loop.test, ast.Name) or loop.orelse or i == 0 or len(loop.body) < 2:
+        return False
+    F = loop.test.id
+    last, init = loop.body[-1], block[i - 1]
+    if not (_simple_assign(last, F) and _simple_assign(init, F)):
+        return False
+    C, C0 = last.value, init.value
+    if not (_quiet_expr(C) and _quiet_expr(C0) and isinstance(C, ast.Compare)) or not _local_flag(fn, F):
+        return False
+    loads = [n for n in ast.walk(fn) if isinstance(n, ast.Name) and n.id == F and isinstance(n.ctx, ast.Load)]
+    stores = _stores(fn, F)
+    if len(loads) != 1 or loads[0] is not loop.test or len(stores) != 2:
+        return False
+    if _own_jumps(loop.body, (ast.Continue,)):
+        return False
+    # integer constants bound just before (a run of plain assignments), for the names the body advances
+    sigma = {}
+    for p in reversed(block[:i - 1]):
+        if isinstance(p, ast.Assign) and all(isinstance(t, ast.Name) for t in p.targets) and isinstance(p.value, ast.Constant) and isinstance(p.value.value, int) and not isinstance(p.value.value, bool):
+            for t in p.targets:
+                sigma.setdefault(t.id, p.value.value)
+        else:
+            break
+    written = {n.id for st in loop.body for n in ast.walk(st) if isinstance(n, ast.Name) and isinstance(n.ctx, ast.Store)}
+    if _canon_cmp(C, {k: v for k, v in sigma.items() if k in written}) != _canon_cmp(C0, {}):
+        return False
+    new = ast.copy_location(ast.While(test=copy.deepcopy(C), body=loop.body[:-1], orelse=[]), loop)
+    block[i - 1:i + 1] = [new]
+    return True
+
+
 def _thread_in_block(fn, block, top_level: bool) -> bool:
     changed = False
     i = 0
     while i < len(block):
         s = block[i]
+        if isinstance(s, ast.While) and _flag_holds_test(fn, block, i):
+            changed = True
+            i -= 1
+            s = block[i]
+        if isinstance(s, ast.While) and not s.orelse and _hoist_invariant_conjunct(fn, block, i):
+            changed = True
+            s = block[i]
         if isinstance(s, ast.While) and not s.orelse:
+          for _round in range(4):  # `while not found and not eof`: one flag per round
+            s = block[i]
+            progressed = False
             names = [s.test] + (list(s.test.values) if isinstance(s.test, ast.BoolOp) and isinstance(s.test.op, ast.And) else [])
             for e in names:
-                n = e.operand if isinstance(e, ast.UnaryOp) and isinstance(e.op, ast.Not) else e
-                if not isinstance(n, ast.Name):
+                cands = [x.id for x in ast.walk(e) if isinstance(x, ast.Name) and _flag_test(e, x.id) is not None]
+                if not cands:
                     continue
                 new_stmts = None
                 for with_tail in (True, False):
                     try:
-                        new_stmts = _thread_loop(fn, block, i, n.id, top_level and with_tail)
+                        new_stmts = _thread_loop(fn, block, i, cands[0], top_level and with_tail)
                         break
                     except _Abort:
                         new_stmts = None
                 if new_stmts is not None:
                     block[i:] = new_stmts
                     changed = True
+                    progressed = True
                     s = block[i]
                     break
+            if not progressed:
+                break
         # descend
         for fld in ("body", "orelse", "finalbody"):
             sub = getattr(s, fld, None)
@@ -427,7 +586,7 @@ def _thread_loop(fn, block, i, F, top_level):
     sp = _split_test(loop.test, F)
     if sp is None:
         return None
-    cv, rem = sp
+    pred, test_expr, rem = sp
     if not _local_flag(fn, F) or not _reads_are_tests(fn, F):
         return None
     if not _stores(ast.Module(body=loop.body, type_ignores=[]), F):
@@ -436,13 +595,15 @@ def _thread_loop(fn, block, i, F, top_level):
     init = None
     for j in range(i - 1, -1, -1):
         p = block[j]
-        if _simple_assign(p, F) and isinstance(p.value, ast.Constant) and isinstance(p.value.value, bool):
-            init = p.value.value
+        if _simple_assign(p, F) and _const_knowledge(p.value) is not None:
+            init = _const_knowledge(p.value)
             break
         if _stores(p, F):
             return None
-    if init is None or init != cv:
+    if init is None or _ev(pred, init) is not True:
         return None
+    # what is known of the flag whenever the head is entered: the loop test has just held
+    head = _refine(pred, init if pred[0] == "truth" else None, True) if pred[0] != "truth" else ("truth", pred[-1])
     tail = block[i + 1:]
     exit_tail = None
     tail_reads = any(_mentions(t, F) for t in tail)
@@ -454,16 +615,149 @@ def _thread_loop(fn, block, i, F, top_level):
                 if not body or not isinstance(body[-1], (ast.Return, ast.Raise)):
                     body.append(ast.copy_location(ast.Return(value=None), at))
                 return body
-    th = _Threader(F, cv, loop, exit_tail)
-    body, _ = th.seq(loop.body, cv, True, loop)
+    th = _Threader(F, pred, test_expr, loop, exit_tail)
+    body, _ = th.seq(loop.body, head, True, loop)
     if th.synth == 0:
         return None
     new = ast.copy_location(ast.While(test=rem if rem is not None else ast.copy_location(ast.Constant(value=True), loop.test), body=body, orelse=[]), loop)
-    new._sa_flag_loop = (F, cv)
+    new._sa_flags = list(getattr(loop, "_sa_flags", []))
+    only_truth = all(t is None or t[0] == "truth" for n in ast.walk(fn) if isinstance(n, (ast.Compare,)) and _mentions(n, F) for t in [_flag_test(n, F)]) and not any(
+        isinstance(n, ast.Compare) and _mentions(n, F) for n in ast.walk(fn))
+    if head is not None and (head[0] == "val" or only_truth):
+        # the evaluator may take the flag to be this constant at the head: its value when known, else (only truth tests read it) its truth
+        new._sa_flags.append((F, head[1]))
     if exit_tail is not None and not _own_jumps(loop.body, (ast.Break,)):
-        # the only way past the loop is the failing head test, where the flag has the continue value
-        tail = _decide_tail(tail, F, cv)
+        # the only way past the loop is the failing head test, where the flag still lets the loop run
+        try:
+            tail = _decide_tail(tail, F, head)
+        except _Abort:
+            pass
     return [new] + tail
+
+
+def _quiet_tail(tail) -> bool:
+    """Statements that cannot raise and have no effect but binding locals / returning: safe to run inside a try body or a handler."""
+    def quiet(e):
+        return e is None or isinstance(e, (ast.Name, ast.Constant)) or (isinstance(e, (ast.Tuple, ast.List)) and all(quiet(x) for x in e.elts))
+
+    for s in tail:
+        if isinstance(s, ast.Return):
+            if not quiet(s.value):
+                return False
+        elif isinstance(s, ast.Assign):
+            if not (all(isinstance(t, ast.Name) for t in s.targets) and quiet(s.value)):
+                return False
+        elif not isinstance(s, ast.Pass):
+            return False
+    return True
+
+
+def _breaks_to_returns(fn) -> bool:
+    """`while ...: ... break` as a statement of the function body, followed by a few straight-line statements that end the function: every `break`
+    runs that remainder itself (tail duplication) - the early-return form.  Only a remainder that cannot raise and calls nothing (assignments of
+    locals / constants, `return` of them) is duplicated: it may then stand inside a try / with statement as well, and no call is multiplied."""
+    changed = False
+    body = fn.body
+    for i, loop in enumerate(body):
+        if not isinstance(loop, ast.While) or loop.orelse:
+            continue
+        tail = body[i + 1:]
+        if len(tail) > _MAX_TAIL or any(isinstance(n, (ast.For, ast.While, ast.Try, ast.With, ast.AsyncFor, ast.AsyncWith, ast.FunctionDef, ast.AsyncFunctionDef, ast.ClassDef, ast.Lambda, ast.Yield, ast.YieldFrom, ast.Global, ast.Nonlocal)) or type(n).__name__ in ("Match", "TryStar")
+                                        for t in tail for n in ast.walk(t)):
+            continue
+        # straight-line: no branching at all in the remainder except a final return
+        if any(isinstance(t, (ast.If,)) for t in tail):
+            continue
+        if not _own_jumps(loop.body, (ast.Break,)):
+            continue
+        quiet = _quiet_tail(tail)
+        if not quiet:
+            continue  # a remainder with calls of its own stays where it is: copies of it would be calls of their own
+
+        def copy_tail(at):
+            out = [copy.deepcopy(x) for x in tail]
+            if not out or not isinstance(out[-1], (ast.Return, ast.Raise)):
+                out.append(ast.copy_location(ast.Return(value=None), at))
+            return out
+
+        def rep(stmts, scoped):
+            nonlocal changed
+            out = []
+            for s in stmts:
+                if isinstance(s, ast.Break):
+                    if scoped and not quiet:
+                        out.append(s)
+                    else:
+                        out.extend(copy_tail(s))
+                        changed = True
+                    continue
+                if isinstance(s, ast.If):
+                    n = copy.copy(s)
+                    n.body, n.orelse = rep(s.body, scoped), rep(s.orelse, scoped)
+                    out.append(n)
+                elif isinstance(s, ast.Try):
+                    n = copy.copy(s)
+                    n.body = rep(s.body, True)
+                    n.handlers = []
+                    for h in s.handlers:
+                        h2 = copy.copy(h)
+                        h2.body = rep(h.body, True)
+                        n.handlers.append(h2)
+                    n.orelse, n.finalbody = rep(s.orelse, True), rep(s.finalbody, True)
+                    out.append(n)
+                elif isinstance(s, (ast.With, ast.AsyncWith)):
+                    n = copy.copy(s)
+                    n.body = rep(s.body, True)
+                    out.append(n)
+                elif isinstance(s, (ast.For, ast.While, ast.AsyncFor)):
+                    n = copy.copy(s)
+                    n.orelse = rep(s.orelse, scoped)  # a break in the else clause of a nested loop belongs to this loop
+                    out.append(n)
+                else:
+                    out.append(s)
+            return out
+
+        loop.body = rep(loop.body, False)
+    return changed
+
+
+def _always_leaves(stmts) -> bool:
+    """The statement list ends the function on every path (return / raise last, nothing that jumps elsewhere)."""
+    if not stmts or _own_jumps(stmts, (ast.Break, ast.Continue)):
+        return False
+    last = stmts[-1]
+    if isinstance(last, (ast.Return, ast.Raise)):
+        return True
+    if isinstance(last, ast.If):
+        return _always_leaves(last.body) and _always_leaves(last.orelse)
+    return False
+
+
+def _invert_while_true(fn) -> bool:
+    """`while True: if C: A else: R` as a statement of the function body, where R ends the function and A has no `break`: the loop runs while C
+    holds and R follows it - `while C: A` then `R` (whatever stood after the endless loop was unreachable).  Likewise with the branches exchanged."""
+    changed = False
+    body = fn.body
+    for i, loop in enumerate(body):
+        if not (isinstance(loop, ast.While) and isinstance(loop.test, ast.Constant) and loop.test.value is True and not loop.orelse and len(loop.body) == 1 and isinstance(loop.body[0], ast.If)):
+            continue
+        br = loop.body[0]
+        if not br.orelse:
+            continue
+        if _always_leaves(br.orelse) and not _own_jumps(br.body, (ast.Break,)) and not _always_leaves(br.body):
+            test, A, R = br.test, br.body, br.orelse
+        elif _always_leaves(br.body) and not _own_jumps(br.orelse, (ast.Break,)) and not _always_leaves(br.orelse):
+            test, A, R = ast.copy_location(ast.UnaryOp(op=ast.Not(), operand=br.test), br.test), br.orelse, br.body
+        else:
+            continue
+        new = ast.copy_location(ast.While(test=test, body=A, orelse=[]), loop)
+        for attr in ("_sa_flags",):
+            if hasattr(loop, attr):
+                setattr(new, attr, getattr(loop, attr))
+        body[i:] = [new] + list(R)
+        changed = True
+        break
+    return changed
 
 
 def thread_flag_loops(tree: ast.Module) -> int:
@@ -477,4 +771,10 @@ def thread_flag_loops(tree: ast.Module) -> int:
                     n += 1
             except _Abort:
                 pass
+            if _breaks_to_returns(fn):
+                ast.fix_missing_locations(fn)
+                n += 1
+            if _invert_while_true(fn):
+                ast.fix_missing_locations(fn)
+                n += 1
     return n
